@@ -3,6 +3,7 @@ package main
 import (
 	"encoding/json"
 	"fmt"
+	"path"
 	"path/filepath"
 	"strings"
 
@@ -187,6 +188,9 @@ func (c06Engine) Gen(job *Job) *Case {
 		c.Project = genValid(r.Fork())
 	case k < 65:
 		c.Project = genMultiDefect(r.Fork())
+		if r.Chance(1, 4) {
+			c.Project = genSingleDefect(r.Fork())
+		}
 	case k < 85:
 		if p := corpusProject(r.Intn(1 << 20)); p != nil && len(p.Files) > 0 {
 			c.Project = p
@@ -255,6 +259,24 @@ func (c06Engine) Gen(job *Job) *Case {
 			e = Env{Ambient: e.Ambient, Conc: r.Range(1, 2), ConcSeed: r.U64()}
 		}
 		c.Reps = append(c.Reps, Rep{Env: e})
+	}
+	if c.Project.Kind != "corpus" && r.Chance(1, 4) {
+		// the working directory of the process is ambient too: name the root by its absolute path
+		// and build from inside the project, from above it, from one of its subdirectories
+		c.RootAs = 5
+		dirs := []string{projDir, path.Dir(projDir)}
+		for _, f := range c.Project.Files {
+			if d := path.Dir(f.Path); d != "." && !strings.HasSuffix(f.Path, "/") {
+				dirs = append(dirs, projDir+"/"+d)
+			}
+		}
+		for i := 1; i < len(c.Reps); i++ {
+			e := &c.Reps[i].Env
+			e.Fresh = false // a fresh process runs in another directory: the absolute names would differ
+			if e.Conc == 0 && r.Chance(2, 3) {
+				e.Cwd = dirs[r.Intn(len(dirs))]
+			}
+		}
 	}
 	return c
 }
@@ -518,6 +540,15 @@ func (c06Engine) Exec(c *Case, job *Job) *Result {
 			case rep.Env.MapMode == 0:
 				what = "pool-ambient-or-internal-goroutine-schedule"
 			}
+			if rep.Env.Cwd != "" {
+				// is the working directory alone responsible? same environment from the worker's own directory
+				e2 := rep.Env
+				e2.Cwd = ""
+				if t2, _ := observe(c, e2, c.Seed+uint64(i+1)); t2 == ref {
+					what = "working-directory " + rep.Env.Cwd
+					rep.Env.MapMode, rep.Env.Prior = 0, 0
+				}
+			}
 			if rep.Env.Prior > 0 && !rep.Env.Fresh && rep.Env.MapMode != 0 && rep.Env.Conc == 0 {
 				// is the prior history alone responsible? same environment without the prior builds
 				e2 := rep.Env
@@ -555,8 +586,8 @@ func (c06Engine) Exec(c *Case, job *Job) *Result {
 					sig += "+residual"
 				}
 			}
-			msg := fmt.Sprintf("repetition %d of the same project (environment: map mode %d seed %d sites %s, prior builds %d, fresh process %v, pool policy %d) differs from repetition 0 in %s [%s]\n%s",
-				i, rep.Env.MapMode, rep.Env.MapSeed, sites, rep.Env.Prior, rep.Env.Fresh, rep.Env.Pool, comp, sig, firstDiff(ref, text))
+			msg := fmt.Sprintf("repetition %d of the same project (environment: map mode %d seed %d sites %s, prior builds %d, fresh process %v, pool policy %d, working directory %q) differs from repetition 0 in %s [%s]\n%s",
+				i, rep.Env.MapMode, rep.Env.MapSeed, sites, rep.Env.Prior, rep.Env.Fresh, rep.Env.Pool, rep.Env.Cwd, comp, sig, firstDiff(ref, text))
 			if known {
 				// a recorded finding explains this repetition completely; keep looking at the others
 				if knownHit == nil {
